@@ -61,6 +61,10 @@ def age_worker(job):
                     continue
                 per = rng.choice([DAY, MIN])
                 kk = rng.choice([0, 0, 1, 1, 2, 3, 5, 30, 400])
+                if rng.random() < 0.15:
+                    # ages beyond 2^31 seconds / time stamps before 1970 (and before 1958, 1901): still whole periods, nothing wraps
+                    kk = rng.choice([24856, 25000, 30000, 45000]) * (1 if per == DAY else 1440)
+                    st.inc("files_older_than_2^31_seconds")
                 e = rng.choice([0, 0, 1, -1, 10 ** 6, -10 ** 6, NS, -NS, NS - 1, per // 2])
                 age_m = max(0, kk * per + e)
                 per2 = rng.choice([DAY, MIN])
@@ -236,6 +240,20 @@ def newer_worker(job):
             os.link(ref3, os.path.join(d, "ref3.lnk"))
             r3 = os.lstat(ref3)
             files += ["d/ref3", "d/ref3.lnk"]
+            # time stamps before 1970 on both sides (negative seconds since the epoch): the comparison is the same
+            oref = os.path.join(sb, "oldref")
+            open(oref, "wb").close()
+            o_a, o_m = -rng.randrange(10 ** 8, 3 * 10 ** 8) * NS - rng.randrange(NS), -rng.randrange(10 ** 8, 3 * 10 ** 8) * NS - rng.randrange(NS)
+            os.utime(oref, ns=(o_a, o_m))
+            ro = os.lstat(oref)
+            for y_, base_ in (("a", ro.st_atime_ns), ("m", ro.st_mtime_ns)):
+                for delta in (-1, 0, 1, -86400 * NS, 86400 * NS):
+                    for which in ("a", "m"):
+                        p_ = os.path.join(d, "old_%s_%s_%d" % (y_, which, delta))
+                        open(p_, "wb").close()
+                        other = -rng.randrange(10 ** 7, 4 * 10 ** 8) * NS
+                        os.utime(p_, ns=((base_ + delta, other) if which == "a" else (other, base_ + delta)))
+                        files.append(os.path.relpath(p_, sb))
             lst = {f: os.lstat(os.path.join(sb, f)) for f in files}
             tests, specs = [], []
             for (x, y) in XY:
@@ -249,6 +267,12 @@ def newer_worker(job):
                 specs.append((x, y, "ref2", "-newer%s%s" % (x, y)))
             tests.append(["-cnewer", "ref2"])
             specs.append(("c", "m", "ref2", "-cnewer"))
+            for (x, y) in (("a", "a"), ("a", "m"), ("m", "a"), ("m", "m")):
+                tests.append(["-newer%s%s" % (x, y), "oldref"])
+                specs.append((x, y, "oldref", "-newer%s%s" % (x, y)))
+            for nm, (x, y) in (("-newer", ("m", "m")), ("-anewer", ("a", "m"))):
+                tests.append([nm, "oldref"])
+                specs.append((x, y, "oldref", nm))
             for (x, y) in XY:
                 tests.append(["-newer%s%s" % (x, y), "d/ref3"])
                 specs.append((x, y, "d/ref3", "-newer%s%s" % (x, y)))
@@ -276,7 +300,8 @@ def newer_worker(job):
                     "lref(followed)": {"a": rst.st_atime_ns, "m": rst.st_mtime_ns, "c": rst.st_ctime_ns},
                     "ref": {"a": rst.st_atime_ns, "m": rst.st_mtime_ns, "c": rst.st_ctime_ns},
                     "ref2": {"a": r2.st_atime_ns, "m": r2.st_mtime_ns, "c": r2.st_ctime_ns},
-                    "d/ref3": {"a": r3.st_atime_ns, "m": r3.st_mtime_ns, "c": r3.st_ctime_ns}}
+                    "d/ref3": {"a": r3.st_atime_ns, "m": r3.st_mtime_ns, "c": r3.st_ctime_ns},
+                    "oldref": {"a": ro.st_atime_ns, "m": ro.st_mtime_ns, "c": ro.st_ctime_ns}}
             rp = {"args": args, "refs": refs, "files": {f: {"a": lst[f].st_atime_ns, "m": lst[f].st_mtime_ns, "c": lst[f].st_ctime_ns} for f in files}}
             st.inc("runs")
             if res.special or res.panic or res.code != 0:
@@ -304,6 +329,8 @@ def newer_worker(job):
                     alt = set((ts(lst[f], x2) > refs[rname][y2]) for x2 in "acm" for y2 in "acm")
                     if len(alt) > 1:
                         st.inc("discriminating_evaluations")
+                    if rname == "oldref" and ex < 0:
+                        st.inc("evaluations_with_both_time_stamps_before_1970")
                     if rname == "d/ref3" and f.startswith("d/ref3"):
                         st.inc("evaluations_of_the_reference_file_itself")
                     if (f in got) != want:
